@@ -21,6 +21,9 @@ RULE = ("E3: for every unit u in {'seconds','minutes','hours',1,2,7,60,90,"
         "k=0..40 (100) of it as start/duration; each pair is parsed in four "
         "orders of loading/parsing the two configurations in one process "
         "(immediately, both loaded first, reversed, sections interleaved, each parsed twice); "
+        "plus every planned start 0..3f seconds (off the unit's grid) x "
+        "durations of 1,2,3,7 steps for units 5,7,10,minutes(+3,30,90): "
+        "parsed duration exactly k, parsed start exactly s/f; "
         "plus E1 pairs: small whole-multiple configurations (chain of two "
         "tasks with runtimes 1..3(4) steps of the unit, compute- or "
         "data-bound, one transfer, 1-2 machines, queue/batch/static) are "
@@ -258,6 +261,51 @@ def factor_sweep(tier):
                    "demand": 2, "ingest": 1, "sysbw": 1}
 
 
+def offgrid_sweep(tier):
+    """planned starts that are NOT whole multiples of the unit (the
+    repository's own custom-unit configuration has them) with durations that
+    are: the parsed duration must be exactly k steps and the start s/f"""
+    units = [5, 7, 10, "minutes"] + ([3, 90, 30] if tier == "thorough"
+                                     else [])
+    for u in units:
+        f = factor(u)
+        for s in range(0, 3 * f + 1):
+            yield {"engine": "E3-offgrid", "unit": u, "start": s}
+
+
+def judge_offgrid(c):
+    u, s = c["unit"], c["start"]
+    f = factor(u)
+    vs = []
+    for k in (1, 2, 3, 7):
+        obs = [mkobs("a", s, k * f, 1, 1, 1, "wa")]
+        cfg = mkcfg([[1, 1]], obs, (10 ** 6, 10), (10 ** 6, 10), 2, 2,
+                    timestep=u)
+        try:
+            conf = Config(_path(cfg))
+            _, _, observations, _ = conf.parse_instrument_config("telescope")
+        except Exception as e:
+            return [("C16.parses", "parse-raised:%s" % type(e).__name__,
+                     {"error": repr(e)})]
+        o = observations[0]
+        if o.duration != k:
+            vs.append(("C16.instrument",
+                       "duration-not-divided-exactly:off-grid-start",
+                       {"start_s": s, "duration_s": k * f,
+                        "parsed": repr(o.duration), "want": k}))
+        if o.est != s / f:
+            vs.append(("C16.instrument",
+                       "start-not-divided-exactly:off-grid-start",
+                       {"start_s": s, "parsed": repr(o.est),
+                        "want": repr(s / f)}))
+    seen, out = set(), []
+    for v in vs:
+        if (v[0], v[1]) not in seen:
+            seen.add((v[0], v[1]))
+            out.append(v)
+    return out
+
+
 def sim_pairs(tier):
     """The same physical configuration (whole multiples of the unit
     everywhere) to be SIMULATED with timestep 'seconds' and with unit u."""
@@ -368,6 +416,19 @@ def run(rep, tier, seed):
             rep.nontrivial.add(len(rep.nontrivial))
         for clause, cause, det in vs:
             rep.violation(clause, cause, c, det, "E3-unit-%s" % c["unit"])
+    og = list(offgrid_sweep(tier))
+
+    def work3(i, c):
+        return judge_offgrid(c)
+    res3, _ = engine.parallel_map(work3, og, chunk=20)
+    for c, vs in zip(og, res3):
+        sc = "E3-offgrid-starts/unit-%s" % c["unit"]
+        s_ = rep.scope(sc)
+        s_["cases"] += 1
+        s_["executions"] += 4
+        rep.evaluations += 4
+        for clause, cause, det in vs:
+            rep.violation(clause, cause, c, det, sc)
     pairs = common.rotate(list(sim_pairs(tier)), seed)
 
     def work2(i, c):
@@ -393,6 +454,9 @@ def run(rep, tier, seed):
 
 
 def replay(payload):
+    if payload.get("engine") == "E3-offgrid":
+        return [{"clause": a, "cause": b, "detail": c}
+                for a, b, c in judge_offgrid(payload)]
     if payload.get("engine") == "E1-pair":
         return [{"clause": a, "cause": b, "detail": c}
                 for a, b, c in judge_sim(payload)[0]]
